@@ -319,12 +319,16 @@ class SourceScope(Scope):
         # type: (str, loc_t) -> loc_t
         """Position of the name in a def or class statement starting at start"""
         sl, col = start
-        source = '\n'.join(self.source.lines[sl-1:sl+4])
         sep = r'(?:\s|\\\n)+'
-        match = re.compile(r'(?:async%s)?(?:def|class)%s(%s)\b' % (sep, sep, re.escape(name))).match(source, col)
-        if match:
-            pos = match.start(1)
-            return sl + source.count('\n', 0, pos), pos - source.rfind('\n', 0, pos) - 1
+        # the identifier as it is written: the parser normalises names (NFKC),
+        # and any number of continuation lines may stand in front of it
+        regex = re.compile(r'(?:async%s)?(?:def|class)%s([^\W\d]\w*)' % (sep, sep))
+        for height in (5, 200):
+            source = '\n'.join(self.source.lines[sl-1:sl-1+height])
+            match = regex.match(source, col)
+            if match and match.end(1) < len(source):
+                pos = match.start(1)
+                return sl + source.count('\n', 0, pos), pos - source.rfind('\n', 0, pos) - 1
         return self.find_id_loc(' ' + name, start, 1, False)
 
     def add_attr_assign(self, scope, attr, value):
